@@ -170,6 +170,16 @@ func runC01(c *eng.Ctx, tier string) {
 	include(c, "R-C01-8", c07Core)
 	// R-C01-9: the name that was checked is the name that is accessed, down to the map key
 	include(c, "R-C01-9", func(sc *eng.Ctx) { secretsKeyIsOwnName(sc, "R-C02-7") })
+	// R-C01-10: "one of the caller's rules": the rules of every request come from
+	// that request's own WhoIs answer (C08's identity rule): nothing remembered
+	// from an earlier request, whose grants may have been withdrawn since
+	include(c, "R-C01-10", func(sc *eng.Ctx) {
+		if gi := sc.P.Method("server", "Server", "getIdentity"); gi != nil {
+			c08Identity(sc, gi)
+		} else {
+			sc.Undecided("R-C08-3", nil, 0, "(*server.Server).getIdentity", "anchor does not resolve")
+		}
+	})
 }
 
 func returnsOnlyStrings(cc *ssa.CallCommon) bool {
